@@ -24,6 +24,10 @@ import (
 
 const verifDir = "/verif"
 
+// outDir is where evidence/ and replay/ are written: /verif for registered
+// runs, a scratch directory for development runs against an alternate tree.
+func outBase() string { return envOr("VERIF_OUT_DIR", verifDir) }
+
 // Main is the entry point of every per-property binary.
 func Main(p Prop) {
 	var (
@@ -595,8 +599,8 @@ func finish(p Prop, plan []Workload, tier string, seed int64, m *merged, wall ti
 		}
 		return nil
 	}
-	os.MkdirAll(filepath.Join(verifDir, "replay"), 0o755)
-	os.MkdirAll(filepath.Join(verifDir, "evidence"), 0o755)
+	os.MkdirAll(filepath.Join(outBase(), "replay"), 0o755)
+	os.MkdirAll(filepath.Join(outBase(), "evidence"), 0o755)
 	knownSeen := map[string]int{}
 	newByKey := map[string][]Violation{}
 	for _, v := range m.rec.Violations {
@@ -618,7 +622,7 @@ func finish(p Prop, plan []Workload, tier string, seed int64, m *merged, wall ti
 		sort.Slice(vs, func(i, j int) bool { return vs[i].Case < vs[j].Case })
 		v := vs[0]
 		name := fmt.Sprintf("%s-%s-%s-%d.json", p.ID(), tier, sanitize(key), v.Case)
-		path := filepath.Join(verifDir, "replay", name)
+		path := filepath.Join(outBase(), "replay", name)
 		wit := map[string]any{"property": p.ID(), "tier": tier, "seed": seed, "workload": v.Workload, "case": v.Case, "key": v.Key,
 			"what": v.What, "detail": v.Detail, "occurrences": len(vs),
 			"replay_cmd": fmt.Sprintf("bin/check %s --replay %s", p.ID(), path)}
@@ -689,7 +693,7 @@ func finish(p Prop, plan []Workload, tier string, seed int64, m *merged, wall ti
 	}
 	b, _ := json.MarshalIndent(ev, "", " ")
 	if !partial || os.Getenv("VERIF_WRITE_PARTIAL") != "" {
-		os.WriteFile(filepath.Join(verifDir, "evidence", p.ID()+".json"), b, 0o644)
+		os.WriteFile(filepath.Join(outBase(), "evidence", p.ID()+".json"), b, 0o644)
 	}
 	fmt.Printf("%s %s seed=%d: %d evaluations, %d distinct non-trivial, %d new violation key(s), %d known finding(s) reproduced, %d inconclusive, %.1fs\n",
 		p.ID(), tier, seed, m.rec.Evaluations, ntTotal, len(keys), len(knownList), len(m.rec.Inconcl), wall.Seconds())
